@@ -58,7 +58,21 @@ def _try_get(ent, attr):
         return False, exc
 
 
-def build_template(target, directory) -> Template:  # pylint: disable=too-many-branches,too-many-statements
+def build_template(target, directory) -> Template:
+    """Two passes: an initial value given to a None attribute before the first close must read back after re-opening;
+    where it does not (the attribute is not stored, or stored where the reader does not look) the template is rebuilt
+    without it, so that token 0 (None) is what both the reader and the raw file show."""
+    tpl = _build_template(target, directory, frozenset())
+    lost = frozenset(a for a, n in tpl.notes.items() if n.startswith("the initial value assigned"))
+    if lost and not tpl.error:
+        notes = dict(tpl.notes)
+        tpl = _build_template(target, directory, lost)
+        for a in lost:
+            tpl.notes[a] = notes[a] + "; fixture rebuilt without it"
+    return tpl
+
+
+def _build_template(target, directory, no_base) -> Template:  # pylint: disable=too-many-branches,too-many-statements
     """Create the file with ONE stored instance (create, close), re-open it, derive the domains from the values the
     getters of the re-opened entity return, and check on a scratch copy that each domain value is accepted."""
     from geoh5py import Workspace
@@ -82,7 +96,7 @@ def build_template(target, directory) -> Template:  # pylint: disable=too-many-b
             # attributes whose value is still None get a concrete initial value now (still before the first close)
             for attr in target["attrs"]:
                 ok, cur = _try_get(ent, attr)
-                if not ok or cur is not None:
+                if not ok or cur is not None or attr in no_base:
                     continue
                 try:
                     _, base = W.domain(fx, ent, attr, cur)
@@ -128,7 +142,7 @@ def build_template(target, directory) -> Template:  # pylint: disable=too-many-b
                     v0 = cur.copy()  # PIL image opened lazily on a buffer
                 else:
                     v0 = copy.deepcopy(cur)
-                if cur is None and base is not None:
+                if cur is None and base is not None and attr not in no_base:
                     tpl.notes[attr] = "the initial value assigned before the first close reads back as None"
                 tpl.values[attr] = [v0, vals[0], vals[1]]
         finally:
@@ -198,7 +212,7 @@ class Run:  # pylint: disable=too-many-instance-attributes
         self.viol = []
         self.obs_log = []
         self.stats = {"steps": 0, "skipped_invalid": 0, "dev_steps": 0, "raw_checked": 0, "reader_checked": 0,
-                      "extended": 0, "invalid_accepted": 0, "refused_changed_live": 0}
+                      "extended": 0, "invalid_accepted": 0, "refused_changed_live": 0, "cut_after_deviation": 0}
         self.work = os.path.join(scratch(), f"run_{os.getpid()}.geoh5")
         self.copy = os.path.join(scratch(), f"run_{os.getpid()}_reader.geoh5")
         self.ws = None
@@ -278,12 +292,19 @@ class Run:  # pylint: disable=too-many-instance-attributes
             return ("ds", None if d is None else (d.get("sha"), d.get("shape")))
         return None
 
+    def is_token(self, s, tok, obs):
+        """does the observed value of slot s show token tok?  The pseudo-token Lost (= 3) of the spec stands for
+        'none of the values of the domain'."""
+        if tok >= len(self.cv[s]):
+            return not any(W.same(obs, v) for v in self.cv[s])
+        return W.same(obs, self.cv[s][tok])
+
     def matches(self, state, live, reader):
         lv, st, _ = state
         for s in range(self.k):
-            if live is not None and not W.same(live[s], self.cv[s][lv[s]]):
+            if live is not None and not self.is_token(s, lv[s], live[s]):
                 return False
-            if not W.same(reader[s], self.cv[s][st[s]]):
+            if not self.is_token(s, st[s], reader[s]):
                 return False
         return True
 
@@ -291,10 +312,11 @@ class Run:  # pylint: disable=too-many-instance-attributes
         lv, st, _ = state
         out = []
         for s in range(self.k):
-            exp_l, exp_s = self.cv[s][lv[s]], self.cv[s][st[s]]
-            if live is not None and not W.same(live[s], exp_l):
+            exp_l = self.cv[s][lv[s]] if lv[s] < 3 else "<none of the domain values>"
+            exp_s = self.cv[s][st[s]] if st[s] < 3 else "<none of the domain values>"
+            if live is not None and not self.is_token(s, lv[s], live[s]):
                 out.append(f"live {self.attrs[s]} = {W.short(live[s], 70)} expected token {lv[s]} = {W.short(exp_l, 70)}")
-            if not W.same(reader[s], exp_s):
+            if not self.is_token(s, st[s], reader[s]):
                 out.append(f"a fresh reader sees {self.attrs[s]} = {W.short(reader[s], 70)} expected token {st[s]} = {W.short(exp_s, 70)}")
         return "; ".join(out)
 
@@ -315,6 +337,7 @@ class Run:  # pylint: disable=too-many-instance-attributes
                 rv = self.raw_value(node, s)
                 if rv is not None:
                     self.raw_seen[s][0] = rv
+            deviated = False
             pending = {}  # slot -> set of deviation tags still compatible with everything seen
             first_dev = {}
             steps = [tuple(x) for x in self.item["path"]]
@@ -330,7 +353,7 @@ class Run:  # pylint: disable=too-many-instance-attributes
                     if not state[2]:
                         steps.append(("Open", 0, 0))
                     def differs(x, y):
-                        return not W.same(self.cv[amb][x], self.cv[amb][y])
+                        return y >= 3 or not W.same(self.cv[amb][x], self.cv[amb][y])
                     nxt = [x for x in (1, 2, 0) if differs(x, state[0][amb])]
                     if not nxt:
                         break
@@ -349,6 +372,9 @@ class Run:  # pylint: disable=too-many-instance-attributes
                     t = lv[s]
                 cands = self.graph.get(state, {}).get((act, a, t))
                 if not cands:
+                    if deviated:
+                        self.stats["cut_after_deviation"] += 1
+                        break  # e.g. "assign the current value again" when the current value is lost
                     raise MachineryError(f"action {(act, a, t)} is not enabled in state {state} of graph {self.item['graph']}")
                 outcome = "ok"
                 detail = ""
@@ -396,18 +422,26 @@ class Run:  # pylint: disable=too-many-instance-attributes
                     ideal = [c for c in cands if c[1] == ""][0]
                     what = self.describe(ideal[0], live, reader)
                     own = act in ("Set", "SetSame") and not (
-                        (live is None or W.same(live[s], self.cv[s][ideal[0][0][s]]))
-                        and W.same(reader[s], self.cv[s][ideal[0][1][s]]))
+                        (live is None or self.is_token(s, ideal[0][0][s], live[s]))
+                        and self.is_token(s, ideal[0][1][s], reader[s]))
                     kind = "assigned" if own else ("frame" if act in ("Set", "SetSame") else "state")
                     self.bad(f"divergence:{kind}:{act}:{self.pair(s) if a else self.tname}",
                              f"step {i} {act}({self.attrs[s] if a else ''}{', token ' + str(t) if act == 'Set' else ''}) after "
                              f"{[list(x) for x in steps[:i - 1]]}: {what}")
                     break
+                if act in ("Set", "SetSame") and s in pending:
+                    # a mechanism that had an outcome of its own for this step which the implementation did not show is refuted
+                    offered = {c[1] for c in cands if c[1]}
+                    shown = {c[1] for c in hit if c[1]}
+                    left = pending[s] - (offered - shown)
+                    if left:
+                        pending[s] = left
                 ideal_hit = [c for c in hit if c[1] == ""]
                 if ideal_hit:
                     chosen = ideal_hit[0]
                 else:
                     chosen = hit[0]
+                    deviated = True
                     tags = {c[1] + (f">{self.attrs[c[2] - 1]}" if c[2] else "") for c in hit}
                     self.stats["dev_steps"] += 1
                     if s in pending and not pending[s] & tags:
@@ -427,6 +461,8 @@ class Run:  # pylint: disable=too-many-instance-attributes
                         continue
                     self.stats["raw_checked"] += 1
                     tok = state[1][q]
+                    if tok >= 3:
+                        continue
                     aliases = [x for x in range(3) if W.same(self.cv[q][x], self.cv[q][tok])]
                     seen = self.raw_seen[q]
                     known = [seen[x] for x in aliases if x in seen]
